@@ -7,8 +7,8 @@ from gen import c11gen as T
 from gen import cigars as G
 from props.c11ext import Rel
 
-PROPS = ["IsoVerif/Props/C11PolyA16.lean"]
-TARGETS = ["IsoVerif.Props.C11PolyA16"]
+PROPS = ["IsoVerif/Props/C11PolyA16.lean", "IsoVerif/Props/C11Finder.lean"]
+TARGETS = ["IsoVerif.Props.C11PolyA16", "IsoVerif.Props.C11Finder"]
 
 
 def _c16():
